@@ -30,7 +30,8 @@ def selOk {α} [BEq α] (sp : PClass) (ps : List α) (x : α) : Bool :=
 def unionKeys (ps : List VNode) : List Nat := (ps.flatMap mapKeys).eraseDups
 
 /-- what `select_anon_map_keys` can return as the key set `S` of the offspring, independent of the shuffle:
-    size between `min(minSize, |U|)` and `maxSize` (default `|U|`); a key of the union `U` is missing only because
+    `S` is drawn from the union `U` of the parents' keys; size between `min(minSize, |U|)` and `maxSize` (default
+    `|U|`); a key of `U` is missing only because
     the maximum was hit or because the parent selected for it lacks it; at pressure `one` only the forced keys (at
     most `minSize`) can be foreign to the first parent. -/
 def keysOk (sp : PClass) (mn mx : Option Nat) (ps : List VNode) (S : List Nat) : Bool :=
@@ -38,7 +39,7 @@ def keysOk (sp : PClass) (mn mx : Option Nat) (ps : List VNode) (S : List Nat) :
   let first := match ps with | p :: _ => mapKeys p | [] => []
   let minS := mn.getD 0
   let maxS := mx.getD U.length
-  sp != .invalid && sortedNat S &&
+  sp != .invalid && sortedNat S && S.all (fun k => U.contains k) &&
   decide (S.length ≤ maxS) && decide (Nat.min minS U.length ≤ S.length) &&
   U.all (fun k => S.contains k || S.length == maxS ||
                   (if sp == .one then !(first.contains k) else ps.any (fun p => !((mapKeys p).contains k)))) &&
